@@ -26,7 +26,9 @@ RULE = (
     "clusters / kept chunks (bound[i] <= t < bound[i+1]) / subset; chunks_kept == whole grid "
     "intervals at stride max(1,ceil(n_chunks/n_kept)) from the first, at most n_kept; per "
     "requested cluster all eligible spikes if eligible <= count or count None/<=0, else exactly "
-    "count. Non-trivial: a spike exactly on a bound, or a stride >1 that does not divide the "
+    "count. (model) generated datasets with more than 20 chunks and a sample rate different from 1: the "
+    "selection written by TemplateModel.save_spikes_subset_waveforms is checked against the same "
+    "constraints. Non-trivial: a spike exactly on a bound, or a stride >1 that does not divide the "
     "number of chunks, or a cluster with more eligible spikes than requested.")
 ASSUMPTIONS = ['np.random.choice(replace=False) returns distinct elements of its input']
 
@@ -83,10 +85,16 @@ def _case(draw):
 
 def drivers(tier):
     th = tier == 'thorough'
-    return [dict(kind='hyp', name='selector', strategy=_case(), examples=300000 if th else 25000)]
+    from . import c17_model
+    return [dict(kind='hyp', name='selector', strategy=_case(), examples=300000 if th else 25000),
+            dict(kind='hyp', name='model', strategy=c17_model.strategy(),
+                 examples=10000 if th else 1000)]
 
 
 def check(case):
+    if case.get('k') == 'model':
+        from . import c17_model
+        return c17_model.check(case)
     bounds, times, clusters = case['bounds'], case['times'], case['clusters']
     nkept = case['nkept']
     n = len(times)
@@ -155,6 +163,9 @@ def check(case):
 
 
 def classify(case, info):
+    if case.get('k') == 'model':
+        from . import c17_model
+        return c17_model.classify(case, info)
     labels = []
     nt = False
     bs = set(case['bounds'])
